@@ -10,6 +10,7 @@ import sys
 
 from simlib import wfgen
 from simlib.driver import blank_result, violation
+from simlib.paths import REPO, VERIF
 
 PROP = "C07"
 LEVEL = "exploration"
@@ -172,7 +173,7 @@ def run_session(workdir, idx, hashseed, perm, steps, evlog):
     with open(prog, "w") as f:
         json.dump({"perm": perm, "steps": steps, "evlog": evlog}, f)
     env = {k: v for k, v in os.environ.items() if not k.startswith("VERIF_RUN")}
-    env.update({"PYTHONHASHSEED": str(hashseed), "PYTHONPATH": "/repo:/verif", "PYTHONDONTWRITEBYTECODE": "1", "PYDRA_HASH_CACHE": os.path.join(workdir, "hashcache")})
+    env.update({"PYTHONHASHSEED": str(hashseed), "PYTHONPATH": REPO + ":" + VERIF, "PYTHONDONTWRITEBYTECODE": "1", "PYDRA_HASH_CACHE": os.path.join(workdir, "hashcache")})
     p = subprocess.run([sys.executable, "-m", "simlib.session", prog, outp], env=env, capture_output=True, text=True, timeout=240, cwd="/verif")
     if not os.path.exists(outp):
         raise RuntimeError(f"session {idx} produced no output: {p.stderr[-1500:]}")
